@@ -695,6 +695,9 @@ func (a *Act) doReturn(st *State, vals []Val, pos token.Pos, ri *ssa.Return) {
 		vc.oblige(name, "post", props, a.pos(pos)+" ["+c.Line+"]", st.guard, v, "ensures "+c.Text)
 		if n := len(vc.obls); n > 0 && vc.quiet == 0 {
 			vc.obls[n-1].Clause = c
+			if len(c.Props) > 0 && vc.obls[n-1].Name == name {
+				vc.obls[n-1].OnlyProps = c.Props
+			}
 		}
 	}
 	a.frameCheck(st, env, pos, ri)
